@@ -35,6 +35,7 @@ import (
 	"github.com/AdguardTeam/AdGuardHome/internal/verifx/srv"
 	"github.com/AdguardTeam/AdGuardHome/internal/whois"
 	vsync "github.com/AdguardTeam/AdGuardHome/verifx/vsync"
+	vtime "github.com/AdguardTeam/AdGuardHome/verifx/vtime"
 	"github.com/AdguardTeam/dnsproxy/proxy"
 	"github.com/miekg/dns"
 )
@@ -677,6 +678,130 @@ func runListHistory(tmp string, h []string) (vkey, vdesc string, engineErr strin
 	return "", "", ""
 }
 
+// protOps: ways of switching protection (both admin endpoints) and the clock.
+var protOps = []string{"pause-1h", "off", "on", "cfg-on", "cfg-off", "advance-2h"}
+
+// runProtHistory: after every step a query for a blocked name is blocked
+// exactly when protection is on: the last explicit setting decides, a timed
+// pause ends at its deadline.
+func runProtHistory(tmp string, h []string) (vkey, vdesc string, engineErr string) {
+	start := time.Date(2024, 6, 5, 12, 0, 0, 0, time.UTC)
+	vtime.SetVirtual(start)
+	defer vtime.SetVirtual(time.Time{})
+	a, err := build(tmp, false)
+	if err != nil {
+		return "", "", "assembly: " + err.Error()
+	}
+	defer a.close()
+	on, unsure := true, false
+	var until time.Time // zero = no pause running
+	for i, step := range h {
+		var code int
+		var body string
+		switch step {
+		case "pause-1h":
+			code, body = a.call("POST", "/control/protection", `{"enabled":false,"duration":3600000}`)
+			on, until = false, vtime.Now().Add(time.Hour)
+		case "off":
+			code, body = a.call("POST", "/control/protection", `{"enabled":false}`)
+			on, until = false, time.Time{}
+		case "on":
+			code, body = a.call("POST", "/control/protection", `{"enabled":true}`)
+			on, until = true, time.Time{}
+		case "cfg-on":
+			code, body = a.call("POST", "/control/dns_config", `{"protection_enabled":true}`)
+			on, until = true, time.Time{}
+		case "cfg-off":
+			// "false" while a pause is running may mean "leave it as it is" (the
+			// settings form sends the value it was shown) or "off for good": what
+			// happens at the deadline is then not judged.
+			code, body = a.call("POST", "/control/dns_config", `{"protection_enabled":false}`)
+			on = false
+			unsure = !until.IsZero()
+		case "advance-2h":
+			vtime.AdvanceVirtual(2 * time.Hour)
+			code = 200
+		}
+		if code != 200 {
+			return "protection-operation-failed:" + step, fmt.Sprintf("%s answered %d: %s (history %v)", step, code, body, h[:i+1]), ""
+		}
+		if step != "cfg-off" && step != "advance-2h" {
+			unsure = false
+		}
+		expired := !until.IsZero() && !vtime.Now().Before(until)
+		if expired && !unsure {
+			on, until = true, time.Time{} // the pause has run out
+		}
+		a.up.Reset()
+		resp, _, rerr := handle(a, &proxy.DNSContext{Req: mkReq(31, "blocked.test", dns.TypeA), Proto: proxy.ProtoUDP, Addr: netip.MustParseAddrPort("192.168.1.5:5556"), RequestID: uint64(2000 + i)})
+		if rerr != nil || resp == nil {
+			return "protection-history-request-failed", fmt.Sprintf("request after %v failed: %v", h[:i+1], rerr), ""
+		}
+		asked := len(a.up.Reset())
+		blocked := asked == 0 && len(resp.Answer) == 1 && strings.Contains(resp.Answer[0].String(), "0.0.0.0")
+		// The request that notices an expired pause starts the re-enable worker;
+		// let it finish before the next step.
+		for k := 0; k < 2000 && !a.server.VerifProtectionUpdateIdle(); k++ {
+			time.Sleep(time.Millisecond)
+		}
+		if expired && unsure {
+			// Follow the implementation (see cfg-off above).
+			on, until, unsure = blocked, time.Time{}, false
+		}
+		if blocked != on {
+			what := "is forwarded although protection was switched on (or the pause has run out)"
+			if blocked {
+				what = "is blocked although protection was switched off"
+			}
+			return "protection-state-differs:" + map[bool]string{true: "blocked-while-off", false: "forwarded-while-on"}[blocked],
+				fmt.Sprintf("after %v (clock %s after the start) a query for blocked.test %s (upstream calls %d, answer %v)", h[:i+1], vtime.Now().Sub(start), what, asked, resp.Answer), ""
+		}
+	}
+	return "", "", ""
+}
+
+func phaseProtection(c *lib.Ctx) {
+	depth := 4
+	if !c.Quick() {
+		depth = 5
+	}
+	idx := 0
+	stop := false
+	var rec func(h []string)
+	rec = func(h []string) {
+		if stop {
+			return
+		}
+		if len(h) == depth {
+			idx++
+			if !c.Mine(idx) {
+				return
+			}
+			if c.Expired() {
+				stop = true
+				c.NotExhaustive("protection histories: time budget")
+				return
+			}
+			c.Count("evals", 1)
+			c.Count("protection_histories", 1)
+			c.Distinct("nontrivial", "protection|"+strings.Join(h, ","))
+			k, d, eerr := runProtHistory(c.TmpDir, h)
+			switch {
+			case eerr != "":
+				c.EngineError(eerr)
+				stop = true
+			case k != "":
+				c.Violation(k, d, listCase{Engine: "protection", History: append([]string{}, h...)})
+			}
+			return
+		}
+		for _, o := range protOps {
+			rec(append(h, o))
+		}
+	}
+	rec(nil)
+}
+
 // phaseLists enumerates every history of list operations up to a depth.
 func phaseLists(c *lib.Ctx) {
 	depth := 4
@@ -796,6 +921,7 @@ func run(c *lib.Ctx) {
 		phaseEscape(c)
 	}
 	phaseLists(c)
+	phaseProtection(c)
 	// Half of the shards explore schedules, the other half run the race pass.
 	half := c.ShardN / 2
 	if half == 0 {
@@ -833,6 +959,20 @@ func replay(c *lib.Ctx, raw json.RawMessage) string {
 		phaseEscape(c)
 		if c.NumViolationKeys() > before {
 			return "violation reproduced (shared state escapes the lock)"
+		}
+		return ""
+	}
+	if cs.Engine == "protection" {
+		var lc listCase
+		if err := json.Unmarshal(raw, &lc); err != nil {
+			return err.Error()
+		}
+		k, d, eerr := runProtHistory(c.TmpDir, lc.History)
+		if eerr != "" {
+			return "engine: " + eerr
+		}
+		if k != "" {
+			return k + ": " + d
 		}
 		return ""
 	}
